@@ -40,7 +40,9 @@ SeedSchemas ==
     \* an alphabet together with a substring whose letters it lacks (the DSL accepts the pair)
     [BareStr EXCEPT !.alphabet = Some(VStr(<<97, 98>>)), !.substr = Some(VStr(<<120, 121, 122>>)), !.min_len = Some(VInt(6))],
     \* the less used types, pinned
-    SBytesA, SDate0, TypedList(SDatetime0), [TypedList(BareBytes) EXCEPT !.len = Some(VInt(2))] }
+    SBytesA, SDate0, TypedList(SDatetime0), [TypedList(BareBytes) EXCEPT !.len = Some(VInt(2))],
+    \* lists without a declared length, nested three deep (whatever depends on the nesting level)
+    TypedList(TypedList(SInt05)), TypedList(TypedList(TypedList(BareBool))) }
 
 RECURSIVE RxReadsEnv(_)
 RxReadsEnv(x) ==
